@@ -309,6 +309,10 @@ def native_search(xm, ym, flip, nmax=5):
                         seen_cuts.add(sum(sel))
                 if 0 not in seen_cuts or n not in seen_cuts:
                     return dict(base, violated="constant-rules-missing", detail=f"cuts {sorted(seen_cuts)} lack 0 or n")
+                # completeness: between any two DIFFERENT score values there is a thresholding (scores that differ, however little, can be separated)
+                want = {sum(1 for s in scores if s >= d) for d in set(scores)} | {0}
+                if not want <= seen_cuts:
+                    return dict(base, violated="thresholding-missing", detail=f"no '>' rule selects exactly the {sorted(want - seen_cuts)} highest scores (rules select {sorted(seen_cuts)})")
     return None
 
 
